@@ -294,3 +294,88 @@ def forced_then_dedup(rng, cls, sizes=(1, 2, 3, 3, 4, 5)):
     tail = (multi_history if multi else weighted_history)(rng, cls, maxops=8, sizes=(n,)).split(':', 1)[1].strip()
     if tail: ops.append(tail)
     return '%s %s %d : %s' % (cls, 'mult' if multi else 'dbl', n, ' ; '.join(ops))
+
+
+# ---- C06: pairs of histories ----
+def _construct(rng, cls, n, target):
+    """a random history from size n that denotes `target` (dict key -> value); detours through junk edges and every kind of removal"""
+    und = cls.startswith('U'); multi = cls in ('DM', 'UM'); weighted = cls in ('DW', 'UW'); labelled = cls in ('D', 'U')
+    ops = []
+    add = lambda i, j, v: ('MA %d %d %d 0' % (i, j, v)) if multi else ('WA %d %d %d 0' % (i, j, v)) if weighted else ('A %d %d %d 0' % (i, j, v))
+    orient = lambda i, j: (j, i) if und and rng.random() < 0.5 else (i, j)
+    junkval = lambda: rng.randint(1, 3) if multi else rng.choice([-3, 1, 5]) if weighted else rng.randint(0, 3)
+    if n > 0 and rng.random() < 0.6:                       # junk first, then wipe it: the past must not matter
+        for _ in range(rng.randint(1, 4)):
+            i, j = rng.randrange(n), rng.randrange(n); ops.append(add(*orient(i, j), junkval()))
+        ops.append(rng.choice(['CL', 'CL', 'SL ; CL'] + ['V %d ; CL' % rng.randrange(n)]))
+    keys = list(target); rng.shuffle(keys)
+    done = set()
+    for k in keys:
+        i, j = k; v = target[k]
+        if n > 0 and rng.random() < 0.25:                   # a junk edge removed again, by removeEdge or removeVertexFromEdgeList on an untouched vertex
+            a, b = rng.randrange(n), rng.randrange(n)
+            kk = (min(a, b), max(a, b)) if und else (a, b)
+            if kk not in target:
+                ops.append(add(*orient(a, b), junkval())); ops.append('R %d %d' % orient(a, b))
+        r = rng.random()
+        if multi and v > 1 and r < 0.4:
+            v1 = rng.randint(1, v - 1); ops.append(add(*orient(i, j), v1)); ops.append(add(*orient(i, j), v - v1))
+        elif multi and r < 0.6:
+            ops.append(add(*orient(i, j), v + 2)); ops.append('MR %d %d 2' % orient(i, j))
+        elif multi and r < 0.75:
+            ops.append(add(*orient(i, j), 1)); ops.append('MS %d %d %d' % (*orient(i, j), v))
+        elif weighted and r < 0.4:
+            ops.append(add(*orient(i, j), v + 3)); ops.append('WS %d %d %d' % (*orient(i, j), v))
+        elif weighted and r < 0.55:
+            ops.append('WS %d %d %d' % (*orient(i, j), v))
+        elif labelled and r < 0.35:
+            ops.append(add(*orient(i, j), (v + 1) % 4)); ops.append('SLB %d %d %d 0' % (*orient(i, j), v))
+        elif labelled and r < 0.5:
+            ops.append(add(*orient(i, j), v)); ops.append(add(*orient(i, j), (v + 2) % 4))       # re-adding keeps the first label
+        elif r < 0.6:
+            ops.append(add(*orient(i, j), junkval())); ops.append('R %d %d' % orient(i, j)); ops.append(add(*orient(i, j), v))   # re-created: only the new value counts
+        else:
+            ops.append(add(*orient(i, j), v))
+        done.add(k)
+    if rng.random() < 0.2: ops.append('DD')
+    return ' ; '.join(ops)
+
+def eq_pair(rng, cls, lk):
+    und = cls.startswith('U'); multi = cls in ('DM', 'UM'); weighted = cls in ('DW', 'UW')
+    n = rng.choice([0, 1, 2, 3, 3, 4, 5])
+    target = {}
+    for _ in range(rng.randint(0, 7) if n else 0):
+        i, j = rng.randrange(n), rng.randrange(n)
+        k = (min(i, j), max(i, j)) if und else (i, j)
+        target[k] = rng.randint(1, 3) if multi else rng.choice([-4, -1, 0, 2, 6]) if weighted else rng.randint(0, 3)
+    kind = rng.choice(['same', 'same', 'oneoff', 'oneoff', 'random'])
+    a = _construct(rng, cls, n, target)
+    if kind == 'same':
+        b = _construct(rng, cls, n, target)
+    elif kind == 'oneoff':
+        t2 = dict(target); how = rng.random()
+        if t2 and how < 0.35: t2.pop(rng.choice(sorted(t2)))
+        elif t2 and how < 0.7 and lk != 'none':
+            k = rng.choice(sorted(t2)); t2[k] = t2[k] + 1 if (multi or weighted) else (t2[k] + 1) % 4
+        elif n > 0:
+            i, j = rng.randrange(n), rng.randrange(n); k = (min(i, j), max(i, j)) if und else (i, j)
+            if k in t2: t2.pop(k)
+            else: t2[k] = 1
+        b = _construct(rng, cls, n, t2)
+        if not t2 and not target and rng.random() < 0.5: b = 'RZ %d' % (n + 1)          # differ in size only
+    else:
+        b = (multi_history(rng, cls, maxops=10, sizes=(n,)) if multi else weighted_history(rng, cls, maxops=10, sizes=(n,)) if weighted
+             else history(rng, cls, lk, maxops=10, reject_p=0.0, sizes=(n,))).split(':', 1)[1].strip()
+    return 'EQ %s %s %d : %s | %s' % (cls, lk, n, a, b)
+
+def coq_term_eq(case):
+    head, body = case.split(':', 1)
+    _, cls, lk, n = head.split()
+    a, b = (body.split('|') + [''])[:2]
+    if any(tok.isdigit() and int(tok) > 5000 for tok in body.replace(';', ' ').replace('|', ' ').split()): return None
+    f = {'D': coq_dop, 'U': coq_uop, 'DM': coq_mop, 'UM': coq_mop, 'DW': coq_wop, 'UW': coq_wop}[cls]
+    la = '[%s]' % '; '.join(f(o.strip()) for o in a.split(';') if o.strip()); lb = '[%s]' % '; '.join(f(o.strip()) for o in b.split(';') if o.strip())
+    hs = 'false' if lk == 'none' else 'true'
+    t = {'D': 'd_eq_case %s repaired' % hs, 'U': 'u_eq_case %s repaired' % hs, 'DM': 'dm_eq_case repaired', 'UM': 'um_eq_case repaired true',
+         'DW': 'dw_eq_case repaired', 'UW': 'uw_eq_case repaired true'}[cls]
+    return '[%s %s %s %s]' % (t, n, la, lb)
